@@ -143,7 +143,7 @@ def bug_switch_check(name, module, cfg, switch, expect, timeout=300):
     rc, out, wall = tlc(name, module, tmp, workers=8, timeout=timeout)
     m = re.search(r"(Invariant (\w+) is violated|Action property (\w+) is violated|"
                   r"Action property line \d+, col \d+ to line \d+, col \d+ of module \w+ is violated|"
-                  r"Temporal properties were violated|Temporal property (\w+) was violated|"
+                  r"Temporal propert(?:y|ies)[^\n]*(?:was|were) violated|"
                   r"Deadlock reached)", out)
     found = m.group(0) if m else None
     gen, dist = parse_tlc_stats(out)
